@@ -48,6 +48,11 @@ def Prim.minSize : Prim → Nat
   | .obj _ _ => 0
   | .sobj lp _ _ _ _ _ _ _ => lp.width
   | .payload _ => 4
+  | .rem => 0
+  | .gtype _ => 0
+  | .doF => 0
+  | .abort _ => 0
+  | .wval _ _ => 0
 
 def Prog.minSize : Prog → Nat
   | .nil => 0
